@@ -871,3 +871,67 @@ def deferral_is_surgical(ctx, p):
     ctx.ob(p + 'y tree-lock-held-from-decision-to-publication', 'K5-held-at', pc.path,
            'the log worker decides that a tree can be removed by ACQUIRING its lock (try_write) and keeps it until Log::end_record published the removal; testing is_locked and locking later leaves a window in which a reader locks a tree that is then removed under its lock',
            acq and not dec if dec or acq else False, 'the decision tests RwLock::is_locked; the write lock is taken later inside write_plan and dropped before end_record')
+
+
+def metadata_replaced_atomically(ctx, p):
+    """the metadata file (format version, salt, column options) is never truncated in place: the new content goes to a temporary
+    name and is renamed over the old file, so that a failed or interrupted write leaves the old metadata - without the salt every
+    hashed key of the database is unreachable."""
+    F = ctx.F
+    wf = ctx.body('options::Options::write_metadata_file_with_version')
+    if not wf:
+        return
+    ws = lib.fam_sites(F, wf.path, ['std::fs::write', 're:std::fs::File::create$', 're:OpenOptions::open$'])
+    rn = lib.fam_sites(F, wf.path, ['std::fs::rename'])
+    ctx.ob(p + 'a metadata-write-site', 'anchor', wf.path, 'the metadata writer writes a file', len(ws) >= 1, str([(b.path, x) for b, x in ws]))
+    for fb, w in ws:
+        a = fb.term(w)['a']
+        direct = False
+        if a and op_place(a[0]) is not None:
+            sl = backward_slice(fb, [op_place(a[0])])
+            # the target is the `path` parameter itself (possibly re-borrowed / converted), not a name derived from it
+            direct = bool(sl.params) and not any(re.search(r'(with_extension|with_file_name|::join|::push|set_extension|set_file_name)$', c) for c in sl.calls)
+        after = [x for b2, x in rn if b2 is fb]
+        wpath = lib.ok_return_unreachable_avoiding(fb, after, [w]) if after else ['?']
+        ctx.ob(p + 'b metadata-written-aside-then-renamed', 'K2-order', fb.path,
+               'the metadata is written under a temporary name and every success path then renames it over the live file (std::fs::write on the live file truncates it first: a failed write would leave it empty)',
+               not direct and wpath is None, 'the live metadata path is written in place' if direct else 'no rename after the write', fb.loc(w))
+
+
+def no_mutual_deferral(ctx, p):
+    """a commit is deferred because a queued commit marked its tree as used. If that queued commit is itself a dereference of the same
+    tree (so it will be deferred because of THIS commit once it reaches the front), the two defer each other forever: neither is ever
+    logged and dropping the handle never returns. The queue scan therefore has to look at whether the scanned commit is itself
+    waiting on the tree (its own node changes / deferral flag), not only at its used_trees."""
+    F = ctx.F
+    pc = ctx.body('db::DbInner::process_commits')
+    if not pc:
+        return
+    bodies = [pc] + [x for x in lib.family(F, pc.path) if x is not pc and x.kind != 'Closure']
+    found = False
+    looks = False
+    for b in bodies:
+        for lp in lib.for_loops_over(b, '.CommitQueue.commits'):
+            # the scan over the commits still QUEUED (not a loop over parts of the commit that was popped off the queue)
+            th = b.term(lp['head'])
+            if not th['a'] or op_place(th['a'][0]) is None or any(re.search(r'::(pop_front|pop_back|remove)$', c) for c in backward_slice(b, [op_place(th['a'][0])]).calls):
+                continue
+            found = True
+            region = b.reachable_from([lp['some']], removed={lp['head']})
+            elem = set()
+            # locals derived from the loop element (the scanned commit)
+            t = b.term(lp['head'])
+            elem.add(t['d'][0])
+            elem = lib.forward_taint(b, elem)
+            for bi in region:
+                for st in b.blocks[bi]['s']:
+                    if st['k'] != 'assign':
+                        continue
+                    pls = ([st['r'].get('p')] if st['r'].get('p') else []) + [op_place(a) for a in st['r'].get('a', []) if op_place(a)]
+                    for pl in pls:
+                        if pl[0] in elem and any(isinstance(e, str) and e in ('.CommitChangeSet.check_for_deferral', '.IndexedChangeSet.node_changes') for e in pl[1:]):
+                            looks = True
+    ctx.ob(p + 'a queue-scan-anchor', 'anchor', pc.path, 'the deferral decision scans the queued commits', found, '')
+    ctx.ob(p + 'b queue-scan-ignores-commits-waiting-on-the-same-tree', 'K3-guard', pc.path,
+           'while scanning the queue for users of a tree, the log worker looks at whether the scanned commit is itself a (deferrable) dereference of that tree; two commits that each dereference the tree and each mark it as used would otherwise defer each other forever',
+           looks, 'the scan reads only used_trees of the queued commits')
